@@ -3,6 +3,7 @@
 -/
 import Xc.Thm.C13
 import Xc.Thm.C18
+import Xc.Lemmas.Accept
 namespace Xc.C10
 open Xc
 
@@ -32,5 +33,31 @@ theorem C10_short (cfg : Config) (pfx : Option Bytes) (count : Nat) (rb : Option
     (h : (gensaltStatic cfg pfx count rb nrb os).ret = some S) : S.length < Gen.CRYPT_GENSALT_OUTPUT_SIZE := by
   have := (C13.C13_fit cfg pfx count rb nrb Gen.CRYPT_GENSALT_OUTPUT_SIZE os S (by simpa [gensaltStatic] using h)).1
   exact_mod_cast this
+
+
+/-- the methods for which "crypt accepts what gensalt wrote and keeps it as a literal prefix" is proved -/
+def accepted (m : Method) : Bool :=
+  match m with
+  | .nt | .descrypt | .bsdicrypt | .md5crypt | .sha256crypt | .sha512crypt | .sha1crypt | .bcrypt | .bcrypt_a | .bcrypt_y => true
+  | _ => false
+
+/-- **C10, acceptance clause** (method level, arbitrary digest functions): whatever a writer `gensalt_<m>_rn` produced — for every
+    count, every random input, every nrbytes and every output size — the same method's `crypt_<m>_rn` accepts it for every phrase,
+    and the resulting hash begins with the generated setting, character for character.  (bcrypt additionally needs its
+    run-time self-test to pass, which is a property of the primitive, not of the strings.) -/
+theorem C10_accept (d : Bool) (D : Digests) (hst : ∀ f, D.bfSelfTest f = true) (m : Method) (hm : accepted m = true)
+    (count : Nat) (rb : Bytes) (n osize : Nat) (S : Bytes) (e : Nat) (h : gensaltMethod d m count rb n osize = .ok S e) (p : Bytes) :
+    ∃ H, cryptMethod d D m p S = .ok H ∧ S <+: H := by
+  cases m <;> simp only [accepted] at hm <;> simp only [gensaltMethod, cryptMethod] at h ⊢
+  all_goals first
+    | (cases hm; done)
+    | exact accept_bf _ count rb n osize S e h D hst p
+    | exact accept_sha512 count rb n osize S e h D p
+    | exact accept_sha256 count rb n osize S e h D p
+    | exact accept_sha1 count rb n osize S e h D p
+    | exact accept_md5 count rb n osize S e h D p
+    | exact accept_nt count osize S e h D p
+    | exact accept_bsdi count rb n osize S e h D p
+    | exact accept_des count rb n osize S e h D p
 
 end Xc.C10
